@@ -4,6 +4,7 @@ package main
 
 import (
 	"bytes"
+	"math/rand"
 	"strings"
 	"testing"
 	"time"
@@ -88,5 +89,26 @@ func FuzzC11(f *testing.F) {
 		}
 		e := Ev{"op": "pes", "bytes": B(in)}
 		c11{}.Exec([]Ev{e})
+	})
+}
+
+// FuzzC08: the fuzzer's bytes drive the SCTE-35 section generator (byteSrc), so every input is a well-formed
+// section (or one of the rejection classes) with a known abstract value; coverage of the real decoder steers the
+// choice.  The corpus is replayed through the same generator and judged by TLC (Trace_C08).
+func FuzzC08(f *testing.F) {
+	for i := 0; i < 25; i++ {
+		f.Add(uint8(i), []byte{}, uint16(0))
+		f.Add(uint8(i), bytes.Repeat([]byte{0x55, 0xaa, 0x01, 0xfe}, 40), uint16(0))
+	}
+	f.Fuzz(func(t *testing.T, sel uint8, in []byte, arg uint16) {
+		if len(in) > 2048 {
+			in = in[:2048]
+		}
+		s := int(sel) % 25
+		if s == 19 {
+			s = 0
+		}
+		e := c08Item(rand.New(&byteSrc{b: in}), s, "quick")
+		c08{}.Exec([]Ev{e})
 	})
 }
